@@ -402,13 +402,15 @@ Lemma g_step_spec fs st op :
   ginv fs (snd (g_step fs st op)) /\
   st_filter (snd (g_step fs st op)) = match op with GFilter fl => fl | _ => st_filter st end.
 Proof.
-  intros Hinv. destruct op as [ch mp vs | flags | |]; cbn [g_step g_spec].
+  intros Hinv. destruct op as [ch mp vs | flags | | |]; cbn [g_step g_spec].
   - pose proof (lookup_glyph_index_step fs st ch mp vs Hinv) as [Hr [Hi Hf]].
     destruct (lookup_glyph_index fs st ch mp vs) as [r st'] eqn:Hq. cbn [fst snd] in *.
     rewrite Hr. cbn [bind]. destruct (glyph_spec fs (st_filter st) ch mp vs) as [g u]. cbn [fst snd]. auto.
   - cbn [fst snd]. split; [reflexivity|]. split; [apply set_filter_step; exact Hinv | reflexivity].
   - pose proof (has_embedded_images_step fs st Hinv) as [Hr [Hi [Hf Hg]]].
     destruct (has_embedded_images fs st) as [b st'] eqn:Hq. cbn [fst snd] in *. rewrite Hr. auto.
+  - pose proof (embedded_images_step fs st Hinv) as [Hr [Hi [Hf Hg]]].
+    destruct (embedded_images fs st) as [r st'] eqn:Hq. cbn [fst snd] in *. rewrite Hr. auto.
   - pose proof (lookup_glyph_index_step fs st DOTTED_CIRCLE NotRequired None Hinv) as [Hr [Hi Hf]].
     destruct (lookup_glyph_index fs st DOTTED_CIRCLE NotRequired None) as [r st'] eqn:Hq. cbn [fst snd] in *.
     rewrite Hr. cbn [bind]. auto.
